@@ -160,10 +160,22 @@ func (kc *kernelCtx) tryRebind(u *Unit, b *Block, fnPrefix, typeName string, ava
 	substFields = fieldNamesMissing(u)
 	defer func() { substFields = map[string]bool{} }()
 	ment := mentionedIn(append([]*Block{b}, extra...)...)
+	// the identifiers that existed when the contract was written (`scope`, generated with `binds`): a renamed variable
+	// is one that was not there
+	var oldScope map[string]bool
+	if sc := b.first("scope"); sc != nil {
+		oldScope = map[string]bool{}
+		for _, n := range strings.Fields(sc.Text) {
+			oldScope[n] = true
+		}
+	}
 	var cands []string
 	seen := map[string]bool{}
 	for _, a := range avail {
 		if a == "" || a == "_" || ment[a] || seen[a] {
+			continue
+		}
+		if oldScope != nil && oldScope[a] {
 			continue
 		}
 		seen[a] = true
